@@ -199,6 +199,21 @@ def plans(draw, nodes, links, origins, dests):
         ops.insert(pos, ["dummy", i])
         if draw(st.booleans()):
             ops.insert(pos + 1, [draw(st.sampled_from(["read", "trystep"]))])
+    # second phase on the completed network: use it, replace an element by a throwaway object, use it, and put
+    # the real element back through a drawn construction call
+    if draw(st.integers(0, 4)) == 0:
+        ops.append([draw(st.sampled_from(["read", "trystep", "trystep"]))])
+        ids = [l["id"] for l in links] + [o["id"] for o in origins] + [d["id"] for d in dests]
+        for i in draw(st.lists(st.sampled_from(ids), min_size=1, max_size=2, unique=True)):
+            ops.append(["dummy", i])
+            if draw(st.booleans()):
+                ops.append([draw(st.sampled_from(["read", "trystep"]))])
+            if i.startswith("L"):
+                ops.append(draw(st.sampled_from([["link", i], ["links", [i]], ["path", [i], False, False]])))
+            elif i.startswith("O"):
+                ops.append(["origin", i])
+            else:
+                ops.append(["dest", i])
     # an origin / destination object that already served in another network
     if (origins or dests) and draw(st.integers(0, 7)) == 0:
         e = draw(st.sampled_from([o["id"] for o in origins] + [d["id"] for d in dests]))
